@@ -1685,6 +1685,15 @@ def opt4(ctx: Ctx) -> None:
                 and not any(w in norm(body[0]) for w in sensitive):
             ctx.R.note(f"OPT-4: {q}: `{norm(body[0])[:60]}` before the push does not involve the options")
             body = body[1:]
+        # a shortcut in front of the push: `if <both options are, by identity, the values already in force> [and ...]: return <what the
+        # with-body returns>` -- pushing the values that are already there and restoring them changes nothing
+        if len(body) == 2 and isinstance(body[0], ast.If) and not body[0].orelse and len(body[0].body) == 1 and isinstance(body[0].body[0], ast.Return) and isinstance(body[1], ast.With) \
+                and len(body[1].body) == 1 and norm(body[1].body[0]) == norm(body[0].body[0]):
+            conj_ = [norm(v_) for v_ in (body[0].test.values if isinstance(body[0].test, ast.BoolOp) and isinstance(body[0].test.op, ast.And) else [body[0].test])]
+            if all(any(c_ in (f"current_options.{o_} is {o_}", f"{o_} is current_options.{o_}") for c_ in conj_) for o_ in ("with_contexts", "recurse_child_tasks")) \
+                    and any(c_.endswith(" is not None") for c_ in conj_):
+                ctx.R.note(f"OPT-4: {q}: shortcut when both options already are the values in force")
+                body = body[1:]
         if len(body) == 1 and isinstance(body[0], ast.With) and isinstance(body[0].items[0].context_expr, ast.Call) \
                 and norm(body[0].items[0].context_expr.func) == "current_options.push":
             kws = {k.arg: norm(k.value) for k in body[0].items[0].context_expr.keywords}
